@@ -225,18 +225,73 @@ Qed.
 Lemma psat_all_map_PC a cs : psat_all a (map PC cs) = sat_all a cs.
 Proof. unfold psat_all, sat_all. induction cs as [|c cs IH]; simpl; auto. rewrite IH. reflexivity. Qed.
 
+Lemma sat_all_sort_kinds a cs : sat_all a (sort_kinds cs) = sat_all a cs.
+Proof.
+  unfold sat_all, sort_kinds. rewrite forallb_app.
+  induction cs as [|c cs IH]; [reflexivity|]. cbn [filter forallb].
+  destruct (is_kind_c c); cbn [negb forallb]; rewrite <- IH;
+    destruct (ssat a c), (forallb (ssat a) (filter is_kind_c cs)); reflexivity.
+Qed.
+
+(* ---- MatchBuiltinRange ---- *)
+Definition mb_sat (a : atom) (s : mbr) : bool :=
+  (if mb_int s then ssat a (SKind KInt) else true) &&
+  (match mb_lo s with Some n => ssat a (SGe n) | None => true end) &&
+  (match mb_hi s with Some n => ssat a (SLe n) | None => true end).
+
+Lemma mb_fold_none cs : fold_left mb_step cs None = None.
+Proof. induction cs as [|c cs IH]; [reflexivity|]. exact IH. Qed.
+
+Lemma mb_step_sound a s c s' : mb_step (Some s) c = Some s' -> mb_sat a s' = mb_sat a s && ssat a c.
+Proof.
+  destruct s as [i lo hi]. unfold mb_sat. destruct c as [b|k|n|n|n|n|n]; cbn [mb_step mb_int mb_lo mb_hi]; try discriminate.
+  - destruct k; try discriminate. destruct i; [discriminate|]. intros H. injection H as <-. cbn [mb_int mb_lo mb_hi].
+    destruct (ssat a (SKind KInt)), lo, hi; cbn; rewrite ?andb_true_r, ?andb_false_r; reflexivity.
+  - destruct lo; [discriminate|]. intros H. injection H as <-. cbn [mb_int mb_lo mb_hi].
+    destruct i, (ssat a (SKind KInt)), (ssat a (SGe n)), hi; cbn; rewrite ?andb_true_r, ?andb_false_r; reflexivity.
+  - destruct hi; [discriminate|]. intros H. injection H as <-. cbn [mb_int mb_lo mb_hi].
+    destruct i, (ssat a (SKind KInt)), (ssat a (SLe n)), lo; cbn; rewrite ?andb_true_r, ?andb_false_r; reflexivity.
+Qed.
+
+Lemma mb_fold_sound a cs : forall s s',
+  fold_left mb_step cs (Some s) = Some s' -> mb_sat a s' = mb_sat a s && sat_all a cs.
+Proof.
+  induction cs as [|c cs IH]; intros s s'; cbn [fold_left].
+  - intros H. injection H as <-. unfold sat_all. cbn. rewrite andb_true_r. reflexivity.
+  - destruct (mb_step (Some s) c) as [s1|] eqn:E; [|rewrite mb_fold_none; discriminate].
+    intros H. rewrite (IH _ _ H), (mb_step_sound a s c s1 E). unfold sat_all. cbn [forallb].
+    rewrite andb_assoc. reflexivity.
+Qed.
+
+Lemma match_builtin_sound a cs t : match_builtin_range cs = Some t -> psat a t = sat_all a cs.
+Proof.
+  unfold match_builtin_range.
+  destruct (fold_left mb_step cs (Some (mkMB false None None))) as [[i lo hi]|] eqn:E; [|discriminate].
+  pose proof (mb_fold_sound a cs _ _ E) as H. unfold mb_sat in H at 2. cbn in H.
+  destruct i; [|discriminate]. destruct lo as [lo|]; [|discriminate]. destruct hi as [hi|].
+  - destruct (existsb _ int_builtin_ranges); [|discriminate]. intros T. injection T as <-.
+    rewrite <- H. unfold mb_sat. cbn [mb_int mb_lo mb_hi psat]. reflexivity.
+  - destruct (Z.eqb lo 0) eqn:Ez; [|discriminate]. intros T. injection T as <-.
+    apply Z.eqb_eq in Ez. subst lo. rewrite <- H. unfold mb_sat. cbn [mb_int mb_lo mb_hi psat].
+    rewrite andb_true_r. reflexivity.
+Qed.
+
 (* C07 (bounds.go): the predeclared-range form written for a conjunction of a basic type and
    integer bounds admits exactly the atoms that all the original conjuncts admit - for every
    list of constraints in every order, whatever the evaluator left in the conjunction *)
 Theorem range_rewrite_sound a cs : psat_all a (range_rewrite cs) = sat_all a cs.
 Proof.
-  unfold range_rewrite. pose proof (bs_fold_sound a cs bs_init []) as H. unfold bs_fold.
+  unfold range_rewrite. destruct (match_builtin_range cs) as [t|] eqn:Em.
+  { unfold psat_all. cbn [forallb]. rewrite andb_true_r. apply match_builtin_sound, Em. }
+  pose proof (bs_fold_sound a cs bs_init []) as H. unfold bs_fold.
   destruct (fold_left _ cs (bs_init, [])) as [s rest].
   assert (E : bs_sat a s rest = sat_all a cs) by (rewrite H; reflexivity). clear H.
   destruct s as [i mn mx]. cbn [bs_min bs_max bs_int].
-  destruct mn as [mn|]; [|apply psat_all_map_PC]. destruct mx as [mx|]; [|apply psat_all_map_PC].
+  destruct mn as [mn|]; [|rewrite psat_all_map_PC; apply sat_all_sort_kinds].
+  destruct mx as [mx|]; [|rewrite psat_all_map_PC; apply sat_all_sort_kinds].
   rewrite <- E. unfold bs_sat, psat_all. cbn [bs_int bs_min bs_max opt_min_sat opt_max_sat].
-  rewrite forallb_app. cbn [app forallb]. fold (psat_all a (map PC rest)). rewrite psat_all_map_PC.
+  rewrite forallb_app. cbn [app forallb]. fold (psat_all a (map PC (sort_kinds rest))).
+  rewrite psat_all_map_PC, sat_all_sort_kinds.
   destruct i.
   - destruct mn as [ge n]. cbn [fst snd]. destruct (Z.ltb n 0) eqn:En.
     + cbn [forallb psat]. rewrite !andb_true_r, !andb_assoc. reflexivity.
